@@ -1241,3 +1241,182 @@ Section BrokenConnector.
     rewrite from_error_skips_unknown_wrappers. reflexivity.
   Qed.
 End BrokenConnector.
+
+(* ================================================================ poll_ready called more than once
+   before `call` (tower's contract allows it; tower's p2c Balance - Channel::balance_list /
+   balance_channel - does it).  No assumption about hyper is needed: the facts are about
+   Reconnect's own guard `if self.error.is_some() { return Ready(Ok) }` and about the Connected
+   branch being repeatable. *)
+Section Repeated.
+  Variable cpr : conn -> poll (result unit unit).
+  Variable sreq : conn -> send_result.
+
+  (* what a Ready(Ok) answer of the loop leaves behind: a parked error in state Idle, or a
+     connection whose poll_ready said Ready(Ok), with has_been_connected set *)
+  Definition ready_shape (rc' : reconnect) : Prop :=
+    (exists e, rc_error rc' = Some e /\ rc_state rc' = Idle) \/
+    (exists c, rc_error rc' = None /\ rc_state rc' = Connected c /\ rc_hbc rc' = true /\
+               cpr c = Ready (Ok tt)).
+
+  Lemma pr_loop_ready_shape : forall fuel rc w rc' w',
+    pr_loop cpr fuel rc w = (rc', w', PrReadyOk) -> rc_error rc = None -> ready_shape rc'.
+  Proof.
+    induction fuel as [|fuel IH]; intros rc w rc' w' H E; simpl in H; [discriminate|].
+    destruct (rc_state rc) eqn:S.
+    - destruct (mk_poll_ready w) as [w1 [|[u|e]]]; try discriminate.
+      destruct (make_service w1) as [[w2 fut]|]; [|discriminate].
+      apply IH in H; [exact H | exact E].
+    - destruct (poll_fut f) as [[f' [|[c|e]]]|]; try discriminate.
+      + apply IH in H; [exact H | exact E].
+      + destruct (negb (rc_hbc rc || rc_lazy rc)); [discriminate|].
+        inversion H; subst. left. exists e. split; reflexivity.
+    - destruct (cpr c) as [|[u|u]] eqn:P; try discriminate.
+      + inversion H; subst. right. exists c. destruct u. repeat split; simpl; auto.
+      + apply IH in H; [exact H | exact E].
+  Qed.
+
+  Lemma poll_ready_ready_shape : forall fuel rc w rc' w',
+    poll_ready cpr fuel rc w = (rc', w', PrReadyOk) ->
+    ready_shape rc' \/ (rc' = rc /\ w' = w /\ exists e, rc_error rc = Some e).
+  Proof.
+    intros fuel rc w rc' w' H. unfold poll_ready in H. destruct (rc_error rc) eqn:E.
+    - right. inversion H; subst. eauto.
+    - left. eapply pr_loop_ready_shape; eauto.
+  Qed.
+
+  (* a parked error answers every further poll_ready with Ready(Ok): state, world (hence the
+     connector's invocation count) untouched - no new attempt *)
+  Lemma poll_ready_parked : forall fuel rc w e,
+    rc_error rc = Some e -> poll_ready cpr fuel rc w = (rc, w, PrReadyOk).
+  Proof. intros fuel rc w e H. unfold poll_ready. rewrite H. reflexivity. Qed.
+
+  Lemma poll_ready_shape_again : forall fuel rc w,
+    ready_shape rc -> poll_ready cpr (S fuel) rc w = (rc, w, PrReadyOk).
+  Proof.
+    intros fuel rc w [(e & E & _) | (c & E & S & B & P)].
+    - eapply poll_ready_parked; eauto.
+    - unfold poll_ready. rewrite E. simpl. rewrite S, P.
+      destruct rc as [st er hb lz i]. simpl in *. subst. reflexivity.
+  Qed.
+
+  (* poll_ready is idempotent once it has answered Ready(Ok) *)
+  Theorem poll_ready_again : forall fuel fuel2 rc w rc' w',
+    poll_ready cpr fuel rc w = (rc', w', PrReadyOk) ->
+    poll_ready cpr (S fuel2) rc' w' = (rc', w', PrReadyOk).
+  Proof.
+    intros fuel fuel2 rc w rc' w' H.
+    destruct (poll_ready_ready_shape _ _ _ _ _ H) as [Sh | (-> & -> & e & E)].
+    - apply poll_ready_shape_again; exact Sh.
+    - eapply poll_ready_parked; eauto.
+  Qed.
+
+  Theorem ready_n_stable : forall n fuel fuel2 rc w rc' w',
+    poll_ready cpr fuel rc w = (rc', w', PrReadyOk) ->
+    ready_n cpr (S fuel2) n rc' w' = (rc', w', PrReadyOk).
+  Proof.
+    induction n as [|n IH]; intros fuel fuel2 rc w rc' w' H; simpl; [reflexivity|].
+    change (match poll_ready cpr (S fuel2) rc' w' with
+            | (rc'0, w'0, PrReadyOk) => ready_n cpr (S fuel2) n rc'0 w'0
+            | r => r end = (rc', w', PrReadyOk)).
+    rewrite (poll_ready_again _ fuel2 _ _ _ _ H).
+    apply (IH (S fuel2) fuel2 rc' w'). apply (poll_ready_again fuel fuel2 rc w); exact H.
+  Qed.
+
+  (* the parked error: stable under any number of polls, handed to the next call exactly once,
+     Idle and clean afterwards *)
+  Theorem parked_error_is_stable : forall fuel rc w rc' w' e,
+    rc_error rc = None ->
+    poll_ready cpr fuel rc w = (rc', w', PrReadyOk) -> rc_error rc' = Some e ->
+    rc_state rc' = Idle /\
+    (forall n fuel2, ready_n cpr fuel2 n rc' w' = (rc', w', PrReadyOk)) /\
+    call rc' = (set_error rc' None, CoErr e) /\
+    rc_error (set_error rc' None) = None /\ rc_state (set_error rc' None) = Idle /\
+    snd (call (set_error rc' None)) = CoPanic.
+  Proof.
+    intros fuel rc w rc' w' e E H P.
+    assert (S : rc_state rc' = Idle).
+    { unfold poll_ready in H. rewrite E in H. apply pr_loop_ready_shape in H; [|exact E].
+      destruct H as [(e' & _ & S) | (c & E' & _)]; [exact S | congruence]. }
+    split; [exact S|]. split.
+    - induction n as [|n IH]; intros fuel2; simpl; [reflexivity|].
+      rewrite (poll_ready_parked fuel2 rc' w' e P). apply IH.
+    - unfold call. rewrite P. simpl. rewrite S. repeat split.
+  Qed.
+
+  (* Buffer worker + Balance (n re-polls) = the plain Buffer worker, except that a poll_ready
+     error evicts the endpoint (the request then waits for ever) instead of failing the worker *)
+  Definition evict (r : chan * world * outcome) : chan * world * outcome :=
+    match r with
+    | (ch', w', ServiceFailed e) => (mkChan (ch_rc ch') None, w', OutOfFuel)
+    | r => r
+    end.
+
+  Theorem serve_again_eq : forall n fuel ch w,
+    serve_again cpr sreq n fuel ch w = evict (serve cpr sreq fuel ch w).
+  Proof.
+    intros n. induction fuel as [|fuel IH]; intros ch w; simpl.
+    - destruct (ch_failed ch); reflexivity.
+    - destruct (ch_failed ch); [reflexivity|].
+      change (match rc_error (ch_rc ch) with
+              | Some _ => (ch_rc ch, w, PrReadyOk)
+              | None => pr_loop cpr (S fuel) (ch_rc ch) w end)
+        with (poll_ready cpr (S fuel) (ch_rc ch) w).
+      destruct (poll_ready cpr (S fuel) (ch_rc ch) w) as [[rc1 w1] p] eqn:H.
+      destruct p; try reflexivity.
+      + apply IH.
+      + rewrite (ready_n_stable n _ fuel _ _ _ _ H).
+        destruct (call rc1) as [rc2 [e|c|]]; try reflexivity.
+        simpl. destruct (sent_outcome sreq c) eqn:O; try reflexivity.
+        unfold sent_outcome in O. destruct (sreq c); discriminate.
+  Qed.
+
+  Definition no_service_failed (rs : list call_rec) : Prop :=
+    Forall (fun c => forall e, rec_outcome c <> ServiceFailed e) rs.
+
+  Lemma serve_batch_again_eq : forall n fuel k ch w rs ch' w',
+    serve_batch cpr sreq fuel k ch w = (rs, ch', w') -> no_service_failed rs ->
+    serve_batch_again cpr sreq n fuel k ch w = (rs, ch', w').
+  Proof.
+    intros n fuel. induction k as [|k IH]; intros ch w rs ch' w' H NF; simpl in *; [exact H|].
+    rewrite serve_again_eq.
+    destruct (serve cpr sreq fuel ch w) as [[ch1 w1] o] eqn:S.
+    destruct o.
+    all: try (simpl in *;
+              destruct (serve_batch cpr sreq fuel k ch1 w1) as [[rs2 ch2] w2] eqn:B;
+              inversion H; subst; inversion NF as [|x l Hd Tl]; subst;
+              rewrite (IH ch1 w1 rs2 ch' w' B Tl); reflexivity).
+    simpl in H. inversion H; subst. inversion NF as [|x l Hd Tl]; subst. exfalso. exact (Hd e eq_refl).
+  Qed.
+
+  Lemma run_steps_again_eq : forall n fuel h ch w rs ch' w',
+    run_steps cpr sreq fuel h ch w = (rs, ch', w') -> no_service_failed rs ->
+    run_steps_again cpr sreq n fuel h ch w = (rs, ch', w').
+  Proof.
+    intros n fuel. induction h as [|s h IH]; intros ch w rs ch' w' H NF; simpl in *; [exact H|].
+    destruct s as [e | b | k].
+    - destruct (apply_ev e ch w) as [ch1 w1]. apply IH; assumption.
+    - apply IH; assumption.
+    - destruct (serve_batch cpr sreq fuel k ch w) as [[rs1 ch1] w1] eqn:B.
+      destruct (run_steps cpr sreq fuel h (settle ch1) w1) as [[rs2 ch2] w2] eqn:R.
+      inversion H; subst. unfold no_service_failed in NF. apply Forall_app in NF. destruct NF as [N1 N2].
+      rewrite (serve_batch_again_eq n fuel k ch w rs1 ch1 w1 B N1).
+      rewrite (IH (settle ch1) w1 rs2 ch' w' R N2). reflexivity.
+  Qed.
+End Repeated.
+
+(* a balanced channel with one endpoint behaves, call for call, like the plain lazy channel:
+   every theorem about [run_with .. true ..] speaks about it *)
+Theorem balanced_run_eq :
+  forall cpr sreq, stack_contract cpr sreq ->
+  forall n fuel lat prl net0, enough_fuel lat prl fuel -> forall h,
+    run_balanced_with cpr sreq n fuel lat prl net0 h = r_calls (run_with cpr sreq fuel true lat prl net0 h).
+Proof.
+  intros cpr sreq HC n fuel lat prl net0 HF h.
+  pose proof (call_definite cpr sreq HC fuel true lat prl net0 HF h) as (_ & _ & _ & D & _).
+  unfold run_balanced_with, run_with in *. simpl in *.
+  destruct (run_steps cpr sreq fuel h (mkChan (new_reconnect true) None) (init_world net0 lat prl))
+    as [[rs ch'] w'] eqn:R.
+  simpl in D.
+  rewrite (run_steps_again_eq cpr sreq n fuel h _ _ rs ch' w' R); [reflexivity|].
+  unfold no_service_failed. eapply Forall_impl; [|exact D]. intros c (_ & _ & _ & _ & F). exact F.
+Qed.
